@@ -850,5 +850,5 @@ Proof.
     split; [rewrite En; exact (N.le_refl _)|].
     assert (HLF : L F (w_st w')) by (eapply L_ext; [|exact HL3]; intros x; unfold dsub, dadd; lia).
     destruct o; [eapply L_ext; [|exact HLF]; intros x; unfold dadd, d0; lia|auto].
-  - inversion E; subst. split; [lia|exact HL].
+  - inversion E; subst. split; [exact (N.le_refl _)|exact HL].
 Qed.
